@@ -28,14 +28,6 @@ def showRun (r : List (List UInt8) × Conn) : String :=
   let flt := if r.2.fault then " FAULT" else ""
   s!"n={r.1.length} {body} closed={if r.2.closed then 1 else 0} code={r.2.code} out={r.2.out.length}:{showBytes r.2.out}{flt}"
 
-/-- frames written by a library sender for the messages `(type, payload)` -/
-def sendAll (isClient : Bool) : Rng → List (Nat × List UInt8) → List UInt8 → Option (List UInt8)
-  | _, [], acc => some acc
-  | rng, (t, p) :: rest, acc =>
-    match sendFrame isClient rng t p with
-    | some (bytes, rng') => sendAll isClient rng' rest (acc ++ bytes)
-    | none => none
-
 def parseMsgs : List String → Option (List (Nat × List UInt8))
   | [] => some []
   | t :: h :: rest => do
